@@ -11,7 +11,8 @@ EXPLANATION = (
     "adaptors: the only call that hands bytes to the inner transport is a complete-write API (Write::write_all / "
     "AsyncWriteExt::write_all[_buf]); its buffer is exactly the Bytes returned by Codec::encode(&self.codec, &packet.into()); "
     "its result is propagated (?, awaited); UDP adaptors send the caller's whole slice with exactly one send call; the "
-    "WebSocket adaptor wraps the whole slice in one binary message and reports buf.len(). Not decided: the transports' own "
+    "WebSocket adaptor wraps the whole slice in one binary message and reports buf.len(); the buffer handed over is Codec::encode's frame "
+    "(replay of its path table: size byte, packet bytes, nothing behind them). Not decided: the transports' own "
     "behaviour; ordering across calls follows from &mut self exclusivity (type system)."
 )
 
